@@ -5,7 +5,7 @@ from tools.vlib import hx
 from checks import c03
 
 MODULE = "PropC11"
-THEOREMS = ["C11_code_conforms", "C11_resume_keeps_records", "C11_resume_same_lineage", "C11_store_is_lineage", "C11_roundtrip_tokens", "C11_roundtrip_strings", "C11_lexer_reads_rendering", "C11_roundtrip_bytes", "C11_roundtrip_bytes_example"]
+THEOREMS = ["C11_code_conforms", "C11_resume_keeps_records", "C11_resume_same_lineage", "C11_store_is_lineage", "C11_roundtrip_tokens", "C11_roundtrip_strings", "C11_lexer_reads_rendering", "C11_roundtrip_bytes", "C11_roundtrip_bytes_example", "C11_cone_conforms"]
 
 
 def workflow(rng, i):
